@@ -20,7 +20,11 @@ at a stencil point -> the known finding `eigen_sym33_unit|batched|near-repeated-
 that persists as a single call, with correct first derivative, at a centre state with (nearly) repeated principal values
 (gap <= 1e-6) of a model that goes through TensorMath's symmetric-matrix-function derivative rule is reported under the
 ONE key `symmetric_matrix_function_jvp|second-derivative|repeated-principal-values|tangent-mismatch`.  Anything else is an
-ordinary violation keyed by model, mode, order, class and signature.
+ordinary violation keyed by model, mode, order and signature.  One more input class has its own key: J2 'seth hill' is
+built on TensorMath.pow_symm, whose divided difference is documented upstream as inaccurate for nearly degenerate
+eigenvalues; at a centre state with (nearly) repeated principal stretches and a non-coaxial plastic strain this makes
+even the first derivative wrong whenever the compiled program's eigenvalues differ by a rounding error (it depends on the
+program shape): `pow_symm|derivative|nearly-repeated-principal-values|relative-difference-inaccurate`.
 """
 import numpy as onp
 
@@ -55,11 +59,11 @@ ASSUMPTIONS = [
     "BFS states are computed with single compiled calls of the real compute_state_new (no batch: D11 cannot leak into the "
     "states), de-duplicated on the internal variables rounded to 1e-10; non-finite states are dropped and counted (C09/C11 "
     "judge the update itself)",
-    "x64, CPU; single-call mode = one compiled call per (case, direction) of jax.jvp(jax.value_and_grad(W)); batched mode "
-    "= jit(vmap over exactly 64 cases (pad = undeformed virgin state) of vmap over the 9 directions); stencil batches "
-    "exactly 832 points",
-    "the forward-mode derivative of the energy value (a by-product of jax.jvp) is compared with jax.grad for the record "
-    "only (tracked, unjudged: the statement names jax.grad and jax.jvp(jax.grad))",
+    "x64, CPU; single-call mode = jit(jax.value_and_grad(W)) for the stress and one compiled call per direction of "
+    "jit(jax.jvp(jax.grad(W))) for the tangent; batched mode = jit(vmap over exactly 64 cases (pad = undeformed virgin "
+    "state) of vmap over the 9 directions of jax.jvp(jax.value_and_grad(W))); stencil batches exactly 832 points",
+    "in batched mode the forward-mode derivative of the energy value (a by-product of jax.jvp) is compared with the "
+    "reverse-mode stress for the record only (tracked, unjudged: the statement names jax.grad and jax.jvp(jax.grad))",
     "D11 / tangent classification by the measured relative gap (<= 1e-6) of the tensors handed to the eigen-solver: "
     "C = F^T F, Ce = Fp^-T C Fp^-1 (J2 finite), Ce of every branch (viscoelastic)",
 ]
@@ -76,6 +80,7 @@ TOLERANCES = {
 
 D11_KEY = "eigen_sym33_unit|batched|near-repeated-spectrum"
 TANGENT_KEY = "symmetric_matrix_function_jvp|second-derivative|repeated-principal-values|tangent-mismatch"
+POW_KEY = "pow_symm|derivative|nearly-repeated-principal-values|relative-difference-inaccurate"
 NB = 64
 NS = 832
 CANON = 1e-10
@@ -173,12 +178,15 @@ class _Programs:
                 return W, P, dW, T
             W, P, dW, T = jax.vmap(one)(basis)
             return W[0], P[0], dW, T
-        def der_dir(H, s, dt, p, V):
-            (W, P), (dW, T) = jax.jvp(lambda X: vg(X, s, dt, p), (H,), (V,))
-            return W, P, dW, T
-        # single-call mode: ONE direction per compiled call (a vmap over the 9 directions is already a compiled batch
-        # in which XLA may duplicate the eigen-decomposition, cf. D11); batched mode: vmap over cases and directions
-        self.der1 = jax.jit(der_dir)
+        gr = jax.grad(mdl.energy, 0)
+
+        def tan_dir(H, s, dt, p, V):
+            return jax.jvp(lambda X: gr(X, s, dt, p), (H,), (V,))[1]
+        # single-call mode, literally the statement's programs: jit(jax.grad(W)) for the stress and, ONE direction per
+        # compiled call, jit(jax.jvp(jax.grad(W))) for the tangent (a vmap over the 9 directions is already a compiled
+        # batch, cf. D11); batched mode: vmap over cases and directions of jvp(value_and_grad)
+        self.g1 = jax.jit(jax.value_and_grad(mdl.energy, 0))
+        self.t1 = jax.jit(tan_dir)
         self.basis = onp.eye(9).reshape(9, 3, 3)
         self.derB = jax.jit(jax.vmap(der, (0, 0, None, None)))
         self.wB = jax.jit(jax.vmap(mdl.energy, (0, None, None, None)))
@@ -206,15 +214,10 @@ class _Programs:
         return onp.array([self.w1(x, s, dt, p) for x in pts])
 
     def ad_single(self, H, s, dt, p):
-        W = P = None
-        dW, T = [], []
-        for V in self.basis:
-            w, g, dw, t = self.der1(H, s, dt, p, V)
-            if W is None:
-                W, P = onp.asarray(w, dtype=float), onp.asarray(g, dtype=float)
-            dW.append(float(dw))
-            T.append(onp.asarray(t, dtype=float))
-        return W, P, onp.array(dW), onp.stack(T)
+        W, P = self.g1(H, s, dt, p)
+        P = onp.asarray(P, dtype=float)
+        T = [onp.asarray(self.t1(H, s, dt, p, V), dtype=float) for V in self.basis]
+        return onp.asarray(W, dtype=float), P, P.ravel().copy(), onp.stack(T)
 
     def ad_batched(self, Hs, Ss, s_pad, dt, p):
         n = Hs.shape[0]
@@ -344,6 +347,7 @@ def _run_cases(rec, mdl, prog, name, cases, s_pad, dt, p, M, eigen_based, seed):
                 continue
         near = eigen_based and (min(c.gap_centre, c.gap_stencil) <= 1e-6)
         near_centre = eigen_based and c.gap_centre <= 1e-6
+        uses_pow = "seth hill" in name
         rS = res["single"]
         for mode in ("single", "batched"):
             if mode not in res:
@@ -403,6 +407,11 @@ def _run_cases(rec, mdl, prog, name, cases, s_pad, dt, p, M, eigen_based, seed):
                     if mode == "batched" and okS and near:
                         key, outcome = D11_KEY, "d11"
                         rec.branch("protocol:batched-fail/single-pass/near-repeated -> D11")
+                    elif uses_pow and near_centre and not okS and not first_ok_single and not nan:
+                        # pow_symm's divided difference (documented upstream as inaccurate for nearly degenerate
+                        # eigenvalues) makes even the FIRST derivative wrong when the computed eigenvalues differ by rounding
+                        key, outcome = POW_KEY, "pow-derivative-at-nearly-repeated-principal-values"
+                        rec.branch("protocol:pow_symm derivative wrong as single call at (nearly) repeated principal values")
                     elif order == 2 and not okS and first_ok_single and near_centre and not nan:
                         key, outcome = TANGENT_KEY, "tangent-at-repeated-principal-values"
                         rec.branch("protocol:second derivative wrong as single call at repeated principal values")
@@ -620,6 +629,8 @@ def _run_j2(g, tier, seed, rec):
         T["generic-ps"] = _generic(seed, 3, 8.0 * ey, True)
         T["generic-ps-small"] = _generic(seed, 4, 0.45 * ey, True)
         T["generic-3d"] = _generic(seed, 5, 6.0 * ey, False)
+        Rz = R.rot_z(0.3)       # uniaxial strain along an in-plane axis: repeated principal stretches, not axis aligned
+        T["uniax-rot"] = Rz @ onp.diag([T["uc:2x-yield"][0, 0], 0.0, 0.0]) @ Rz.T
         h = 0.05 * ey
         # ---- E-BFS on the real update, single compiled calls, depth <= 2 -------------------------------------
         acts = _j2_actions(tier)
@@ -655,7 +666,7 @@ def _run_j2(g, tier, seed, rec):
             frontier = nxt
         rec.notes["states:%s:%s" % (name, sname)] = len(states)
         # ---- cases -------------------------------------------------------------------------------------------
-        hlabels = ["zero", "uc:below-yield", "ut:at-yield", "uc:2x-yield", "ut:0.2", "shear+", "biax", "centre",
+        hlabels = ["zero", "uc:below-yield", "ut:at-yield", "uc:2x-yield", "ut:0.2", "shear+", "biax", "uniax-rot", "centre",
                    "generic-ps-small", "generic-ps", "generic-3d"]
         if tier == "thorough":
             hlabels += ["ut:1e-6", "shear-", "rot"]
